@@ -131,7 +131,7 @@ Definition argv_after (cfg : Fixes) (o : Opts) (p : Prog) (tr : option prof) (c 
   if p_rebind_argv p && body_runs o p tr then rebind_with "prog-rebound" c else c.
 
 Definition tracing_after (cfg : Fixes) (o : Opts) (p : Prog) (n : Z) (tr : option prof) : option prof :=
-  if registers o p && negb (fx_autoprof cfg) && negb (is_some tr) then Some (Ext n) else tr.
+  if leaks cfg o p && negb (is_some tr) then Some (Ext n) else tr.
 
 (* g: the decorator as the setup file left it (that is what main snapshots and hands back) *)
 Definition gp_after (cfg : Fixes) (g : GP) (n : Z) : GP :=
@@ -290,22 +290,23 @@ Proof.
   destruct (0 <? o_interval o) eqn:E; lia.
 Qed.
 
-Lemma run_tracing cfg o p s :
-  (fx_autoprof cfg = true \/ registers o p = false) ->
-  tracing (snd (main cfg o p s)) = tracing s.
+Lemma leaks_fixed cfg o p : fx_autoprof cfg = true -> fx_direct_enable cfg = true -> leaks cfg o p = false.
 Proof.
-  intros H. rewrite main_eq. cbn [snd tracing]. unfold tracing_after.
-  destruct H as [H|H]; rewrite H; [rewrite andb_false_r|]; reflexivity.
+  intros A D. unfold leaks, cprofile_dump_disables. rewrite A, D.
+  destruct (o_line o), (o_builtin o), (p_leaves p), (registers o p); reflexivity.
 Qed.
+
+Lemma run_tracing cfg o p s :
+  leaks cfg o p = false ->
+  tracing (snd (main cfg o p s)) = tracing s.
+Proof. intros H. rewrite main_eq. cbn [snd tracing]. unfold tracing_after. rewrite H. reflexivity. Qed.
 
 (* the tree as it is: a run that registers imports for auto-profiling, started with no profiler
    enabled, ends with its LineProfiler enabled *)
 Lemma run_tracing_leak cfg o p s :
-  fx_autoprof cfg = false -> registers o p = true -> tracing s = None ->
+  leaks cfg o p = true -> tracing s = None ->
   tracing (snd (main cfg o p s)) = Some (Ext (next_prof s)).
-Proof.
-  intros H R T. rewrite main_eq. cbn [snd tracing]. unfold tracing_after. rewrite H, R, T. reflexivity.
-Qed.
+Proof. intros R T. rewrite main_eq. cbn [snd tracing]. unfold tracing_after. rewrite R, T. reflexivity. Qed.
 
 (* ---- sequences of runs ------------------------------------------------------------------ *)
 (* along the execution: every run's write-back happens *)
@@ -402,22 +403,25 @@ Proof.
 Qed.
 
 (* no run of the sequence executes auto-profiling registration statements *)
-Definition no_registration (rs : list run) : bool := forallb (fun r => negb (registers (fst r) (snd r))) rs.
+Definition no_leak (cfg : Fixes) (rs : list run) : bool := forallb (fun r => negb (leaks cfg (fst r) (snd r))) rs.
+
+Lemma no_leak_fixed cfg rs : fx_autoprof cfg = true -> fx_direct_enable cfg = true -> no_leak cfg rs = true.
+Proof.
+  intros A D. unfold no_leak. rewrite forallb_forall. intros r _. rewrite leaks_fixed by assumption. reflexivity.
+Qed.
 
 Lemma runs_tracing cfg rs : forall s,
-  (fx_autoprof cfg = true \/ no_registration rs = true) ->
+  no_leak cfg rs = true ->
   tracing (exec_runs cfg s rs) = tracing s.
 Proof.
-  induction rs as [|[o p] t IH]; intros s H; [reflexivity|]. cbn [exec_runs]. rewrite IH.
-  - apply run_tracing. destruct H as [H|H]; [left; exact H|right].
-    cbn [no_registration forallb fst snd] in H. apply andb_prop in H as [H _]. apply negb_true_iff in H. exact H.
-  - destruct H as [H|H]; [left; exact H|right].
-    cbn [no_registration forallb] in H. apply andb_prop in H as [_ H]. exact H.
+  induction rs as [|[o p] t IH]; intros s H; [reflexivity|].
+  cbn [no_leak forallb fst snd] in H. apply andb_prop in H as [H1 H2]. apply negb_true_iff in H1.
+  cbn [exec_runs]. rewrite IH by exact H2. apply run_tracing. exact H1.
 Qed.
 
 (* ---- the clauses of C19 -------------------------------------------------------------------- *)
 Theorem tracing_clause cfg s rs :
-  (fx_autoprof cfg = true \/ no_registration rs = true) ->
+  no_leak cfg rs = true ->
   tracing_ok s (exec_runs cfg s rs) = true.
 Proof. intros H. unfold tracing_ok. rewrite runs_tracing by exact H. apply oprof_eqb_refl. Qed.
 
@@ -460,11 +464,11 @@ Proof. intros H. unfold timers_ok. rewrite runs_timers by exact H. apply Z.eqb_r
 (* ---- the repaired main satisfies all of C19 ------------------------------------------------ *)
 Theorem restores_if_fixed cfg :
   fx_at_call cfg = true -> fx_finally cfg = true -> fx_profile cfg = true -> fx_timer cfg = true ->
-  fx_autoprof cfg = true ->
+  fx_autoprof cfg = true -> fx_direct_enable cfg = true ->
   C19_statement cfg.
 Proof.
-  intros A F P T G s rs U Q. unfold restored.
-  rewrite argv_clause, path_clause, profile_clause, tracing_clause, timers_clause; auto.
+  intros A F P T G D s rs U Q. unfold restored.
+  rewrite argv_clause, path_clause, profile_clause, tracing_clause, timers_clause; auto using no_leak_fixed.
 Qed.
 
 (* ---- in-process runs are invisible to everything that happens around them ------------------------ *)
@@ -474,7 +478,7 @@ Proof. intros H. rewrite main_eq. cbn [snd gp]. unfold gp_after. rewrite H. dest
 (* one run: nothing observable changes except what its setup file did to the decorator *)
 Lemma run_veq cfg o p s :
   fx_at_call cfg = true -> fx_finally cfg = true -> fx_profile cfg = true -> fx_timer cfg = true ->
-  (fx_autoprof cfg = true \/ registers o p = false) ->
+  leaks cfg o p = false ->
   veq (snd (main cfg o p s)) (set_gp (gp_setup o (gp s)) s).
 Proof.
   intros A F P T G. unfold veq.
@@ -485,8 +489,8 @@ Proof.
   cbn zeta in *. rewrite A1, P1, run_gp_fixed, run_tracing, run_timers; auto.
 Qed.
 
-Definition act_registers (a : act) : bool := match a with ARun o p => registers o p | _ => false end.
-Definition no_registering_act (acts : list act) : bool := forallb (fun a => negb (act_registers a)) acts.
+Definition act_leaks (cfg : Fixes) (a : act) : bool := match a with ARun o p => leaks cfg o p | _ => false end.
+Definition no_leaking_act (cfg : Fixes) (acts : list act) : bool := forallb (fun a => negb (act_leaks cfg a)) acts.
 
 (* Interleave kernprof.main runs with ordinary use of the decorator in any way: argv, path, trace
    slot and threads end as they started, and the decorator object ends exactly as the ordinary
@@ -503,17 +507,14 @@ Qed.
 
 Theorem runs_invisible cfg :
   fx_at_call cfg = true -> fx_finally cfg = true -> fx_profile cfg = true -> fx_timer cfg = true ->
-  forall acts s, (fx_autoprof cfg = true \/ no_registering_act acts = true) ->
+  forall acts s, no_leaking_act cfg acts = true ->
                  veq (exec_acts cfg s acts) (set_gp (user_gp acts (cur (argv s)) (gp s)) s).
 Proof.
   intros A F P T. induction acts as [|a acts IH]; intros s G.
   - unfold veq. destruct s; cbn; auto.
-  - assert (G' : fx_autoprof cfg = true \/ no_registering_act acts = true).
-    { destruct G as [G|G]; [left; exact G|right]. cbn [no_registering_act forallb] in G. apply andb_prop in G as [_ G]. exact G. }
+  - cbn [no_leaking_act forallb] in G. apply andb_prop in G as [G0 G']. apply negb_true_iff in G0.
     rewrite exec_acts_cons. destruct a as [o p|u].
-    + assert (Gr : fx_autoprof cfg = true \/ registers o p = false).
-      { destruct G as [G|G]; [left; exact G|right]. cbn [no_registering_act forallb act_registers] in G.
-        apply andb_prop in G as [G _]. apply negb_true_iff in G. exact G. }
+    + assert (Gr : leaks cfg o p = false) by exact G0.
       pose proof (run_veq cfg o p s A F P T Gr) as R.
       change (do_act cfg s (ARun o p)) with (snd (main cfg o p s)).
       remember (snd (main cfg o p s)) as s1 eqn:E. clear E.
@@ -532,27 +533,21 @@ Proof.
 Qed.
 
 Corollary runs_invisible_current acts s :
+  no_leaking_act current acts = true ->
   veq (exec_acts current s acts) (set_gp (user_gp acts (cur (argv s)) (gp s)) s).
-Proof. apply runs_invisible; try reflexivity. left; reflexivity. Qed.
+Proof. intros G. apply runs_invisible; try reflexivity. exact G. Qed.
 
-(* ---- the tree as it is (after the five repairs) satisfies all of C19 ---------------------------- *)
-Theorem restores_current : C19_statement current.
-Proof. apply restores_if_fixed; reflexivity. Qed.
 
-Corollary restores_current_run s o p :
-  usable (gp s) = true -> setup_uses o = [] -> restored s (snd (main current o p s)) = true.
-Proof.
-  intros U Q. apply (restores_current s [(o, p)] U). cbn [setup_silent forallb fst]. rewrite Q. reflexivity.
-Qed.
 
-(* ---- what held before a77d816 (kept: it is a theorem about every cfg with the four repairs) ----- *)
+(* ---- the tree as it is (after the five repairs) ---------------------------------------------------- *)
+
 (* for ALL sequences four clauses hold; the fifth (no profiler left enabled) holds when no run
    executes auto-profiling registration statements (-l -p with a selection matching an import) *)
 Theorem restores_current_partial s rs :
   usable (gp s) = true -> setup_silent rs = true ->
   argv_ok s (exec_runs current s rs) = true /\ path_ok s (exec_runs current s rs) = true
   /\ profile_ok s (exec_runs current s rs) = true /\ timers_ok s (exec_runs current s rs) = true
-  /\ (no_registration rs = true -> restored s (exec_runs current s rs) = true).
+  /\ (no_leak current rs = true -> restored s (exec_runs current s rs) = true).
 Proof.
   intros U Q.
   assert (A : argv_ok s (exec_runs current s rs) = true) by (apply argv_clause; [reflexivity|left; reflexivity]).
@@ -560,7 +555,7 @@ Proof.
   assert (G : profile_ok s (exec_runs current s rs) = true) by (apply profile_clause; [reflexivity|exact U|exact Q]).
   assert (T : timers_ok s (exec_runs current s rs) = true) by (apply timers_clause; left; reflexivity).
   repeat split; try assumption.
-  intros N. unfold restored. rewrite A, P, G, T, tracing_clause; [reflexivity|right; exact N].
+  intros N. unfold restored. rewrite A, P, G, T, tracing_clause; [reflexivity|exact N].
 Qed.
 
 Definition opts_timed : Opts := mkOpts true false false None [] 1 ["prog.py"] "" "/T".
@@ -572,8 +567,8 @@ Lemma argv_needs_repair cfg :
                 /\ argv_ok s (snd (main cfg o p s)) = false
                 /\ cur (argv (snd (main cfg o p s))) = o_new_argv o.
 Proof.
-  destruct cfg as [a b c d e f g]. cbn. intros -> ->. exists st0, opts0, returns.
-  destruct c, d, e, f, g; vm_compute; repeat split; reflexivity.
+  destruct cfg as [a b c d e f g h]. cbn. intros -> ->. exists st0, opts0, returns.
+  destruct c, d, e, f, g, h; vm_compute; repeat split; reflexivity.
 Qed.
 
 Lemma path_needs_finally cfg :
@@ -583,8 +578,8 @@ Lemma path_needs_finally cfg :
                 /\ path_ok s (snd (main cfg o p s)) = false
                 /\ cur (path (snd (main cfg o p s))) = o_script_dir o :: cur (path s).
 Proof.
-  destruct cfg as [a b c d e f g]. cbn. intros ->. exists st0, opts0, raises.
-  destruct a, b, d, e, f, g; vm_compute; repeat split; reflexivity.
+  destruct cfg as [a b c d e f g h]. cbn. intros ->. exists st0, opts0, raises.
+  destruct a, b, d, e, f, g, h; vm_compute; repeat split; reflexivity.
 Qed.
 
 Lemma profile_needs_repair cfg :
@@ -593,8 +588,8 @@ Lemma profile_needs_repair cfg :
                 /\ profile_ok s (snd (main cfg o p s)) = false
                 /\ decorate (gp (snd (main cfg o p s))) (fun _ => None) [] (Fn 0) = Err TypeError.
 Proof.
-  destruct cfg as [a b c d e f g]. cbn. intros ->. exists st0, opts0, returns.
-  destruct a, b, c, e, f, g; vm_compute; repeat split; reflexivity.
+  destruct cfg as [a b c d e f g h]. cbn. intros ->. exists st0, opts0, returns.
+  destruct a, b, c, e, f, g, h; vm_compute; repeat split; reflexivity.
 Qed.
 
 Lemma timer_needs_repair cfg :
@@ -603,13 +598,13 @@ Lemma timer_needs_repair cfg :
                 /\ timers_ok s (snd (main cfg o p s)) = false
                 /\ timers (snd (main cfg o p s)) = timers s + 1.
 Proof.
-  destruct cfg as [a b c d e f g]. cbn. intros ->. exists st0, opts_timed, returns.
-  destruct a, b, c, d, f, g; vm_compute; repeat split; reflexivity.
+  destruct cfg as [a b c d e f g h]. cbn. intros ->. exists st0, opts_timed, returns.
+  destruct a, b, c, d, f, g, h; vm_compute; repeat split; reflexivity.
 Qed.
 
 (* auto-profiling: the registration statements enable the LineProfiler and nothing disables it.
    One import matched by -p is enough; the program may end any way it likes. *)
-Definition registering : Prog := mkProg Return false false false false true 1 [].
+Definition registering : Prog := mkProg Return false false false false true LNone 1 [].
 Lemma autoprof_needs_balance cfg :
   fx_autoprof cfg = false ->
   exists s o p, usable (gp s) = true /\ tracing s = None /\ registers o p = true
@@ -617,8 +612,40 @@ Lemma autoprof_needs_balance cfg :
                 /\ tracing_ok s (snd (main cfg o p s)) = false
                 /\ tracing (snd (main cfg o p s)) = Some (Ext (next_prof s)).
 Proof.
-  destruct cfg as [a b c d e f g]. cbn. intros ->. exists st0, opts0, registering.
-  destruct a, b, c, d, e, f; vm_compute; repeat split; reflexivity.
+  destruct cfg as [a b c d e f g h]. cbn. intros ->. exists st0, opts0, registering.
+  destruct a, b, c, d, e, f, h; vm_compute; repeat split; reflexivity.
+Qed.
+
+(* a program that calls profile.enable() under -l and just ends: unless main switches the
+   LineProfiler off unconditionally it stays on (the by-count loop of a77d816 does not see it) *)
+Definition enabling : Prog := mkProg Return false false false false true LEnable 0 [].
+Lemma direct_enable_needs_disable cfg :
+  fx_direct_enable cfg = false ->
+  exists s o p, usable (gp s) = true /\ tracing s = None /\ p_leaves p = LEnable /\ o_line o = true
+                /\ fst (main cfg o p s) = Returned
+                /\ tracing_ok s (snd (main cfg o p s)) = false
+                /\ tracing (snd (main cfg o p s)) = Some (Ext (next_prof s)).
+Proof.
+  destruct cfg as [a b c d e f g h]. cbn. intros ->. exists st0, opts0, enabling.
+  destruct a, b, c, d, e, f, g; vm_compute; repeat split; reflexivity.
+Qed.
+
+Lemma current_refuted : ~ C19_statement current.
+Proof.
+  intros H. specialize (H st0 [(opts0, enabling)] eq_refl eq_refl). vm_compute in H. discriminate.
+Qed.
+
+Lemma leak_breaks_next_run :
+  fst (main current opts0 returns (snd (main current opts0 enabling st0))) = Raised
+  /\ fst (main current opts0 returns st0) = Returned.
+Proof. vm_compute. split; reflexivity. Qed.
+
+(* the cProfile flavour (-b without -l) and every by-count use are safe in the tree as it is *)
+Lemma current_leaks_iff o p :
+  leaks current o p = o_line o && match p_leaves p with LEnable => true | _ => false end.
+Proof.
+  unfold leaks, current, cprofile_dump_disables. cbn.
+  destruct (o_line o), (o_builtin o), (p_leaves p), (registers o p); reflexivity.
 Qed.
 
 (* ... and the next in-process run then fails: its own profiler cannot be enabled *)
@@ -643,13 +670,13 @@ Example nonvacuous :
   usable (gp st0) = true
   (* the present behaviour restores everything on the runs that refuted the unrepaired one *)
   /\ restored st0 (exec_runs current st0 [(opts0, returns); (opts0, raises); (opts_timed, returns);
-                                           (opts_module, mkProg Exc true true true true true 0 [Fire; Fire; DumpDone])]) = true
+                                           (opts_module, mkProg Exc true true true true true LByCount 0 [Fire; Fire; DumpDone])]) = true
   /\ restored st0 (exec_runs unrepaired st0 [(opts0, returns)]) = false
   /\ fst (main current opts0 raises st0) = Raised
   (* during the run the pieces really are changed (the model is not the identity) *)
-  /\ cur (path (snd (main_body current opts_module (mkProg Return true false true false true 0 []) st0)))
+  /\ cur (path (snd (main_body current opts_module (mkProg Return true false true false true LNone 0 []) st0)))
      = ["/T/setupd"; "/T"; "/lib"; "/prog-added"; "/prog-rebound"]
-  /\ cur (argv (snd (main_body current opts_module (mkProg Return false true false true true 0 []) st0))) = ["mod"; "x"; "prog-added"; "prog-rebound"].
+  /\ cur (argv (snd (main_body current opts_module (mkProg Return false true false true true LNone 0 []) st0))) = ["mod"; "x"; "prog-added"; "prog-rebound"].
 Proof. vm_compute. repeat split; reflexivity. Qed.
 
 (* ---- executable comparison used by the case shards ---------------------------------------------- *)
@@ -747,9 +774,26 @@ Fixpoint spec_bits (prev : seen) (acts : list act) (os : list (seen * Z)) : Z :=
   end.
 
 (* what C14 needs of all this: the decorator object after runs interleaved with ordinary use *)
-Lemma decorator_under_kernprof acts s :
+Lemma decorator_under_kernprof acts : forall s,
+  gp (exec_acts current s acts) = user_gp acts (cur (argv s)) (gp s)
+  /\ cur (argv (exec_acts current s acts)) = cur (argv s).
+Proof.
+  induction acts as [|a acts IH]; intros s; [split; reflexivity|].
+  rewrite exec_acts_cons. destruct a as [o p|u].
+  - change (do_act current s (ARun o p)) with (snd (main current o p s)).
+    assert (Hr : restoring current (fst (main current o p s)) = true) by (destruct (fst (main current o p s)); reflexivity).
+    destruct (run_argv current o p s Hr (or_introl eq_refl)) as (A1 & _).
+    pose proof (run_gp_fixed current o p s eq_refl) as G1. cbn zeta in A1.
+    destruct (IH (snd (main current o p s))) as (I1 & I2).
+    cbn [user_gp]. rewrite I1, I2, A1, G1. unfold gp_setup. split; reflexivity.
+  - change (do_act current s (AUse u)) with (do_uop u s).
+    destruct (IH (do_uop u s)) as (I1 & I2). cbn [user_gp]. rewrite I1, I2.
+    destruct s; split; reflexivity.
+Qed.
+
+Corollary decorator_under_kernprof_gp acts s :
   gp (exec_acts current s acts) = user_gp acts (cur (argv s)) (gp s).
-Proof. exact (proj1 (proj2 (proj2 (runs_invisible_current acts s)))). Qed.
+Proof. exact (proj1 (decorator_under_kernprof acts s)). Qed.
 
 Example decorator_under_kernprof_example :
   gp (exec_acts current st0 [ARun opts_setup_uses raises; AUse UDecorate])
